@@ -85,6 +85,11 @@ class Opaque:
 
 
 @dataclass
+class FnItem:
+    path: str
+
+
+@dataclass
 class Closure:
     key: str                     # the source position rustc names the closure by
     captures: list[Any]
@@ -158,10 +163,8 @@ class Machine:
         s = s.strip()
         if re.fullmatch(r"_\d+", s):
             return L, s
-        if s.startswith("("):
-            end = _balanced(s, 0)
-            if end != len(s):
-                raise Unsupported(f"place `{s}`")
+        if s.startswith("(") and _balanced(s, 0) == len(s):
+            end = len(s)
             inner = s[1:-1].strip()
             if inner.startswith("*"):
                 r = self.read(inner[1:], L)
@@ -239,11 +242,17 @@ class Machine:
             return s[1:-1]
         if s.startswith('b"') or s == "()" or s.startswith("pyo3::Python::<"):
             return Opaque()
-        m = re.fullmatch(r"(?:\w+::)*constants::(\w+)", s)
+        m = re.fullmatch(r".*?(\w+)::promoted\[(\d+)\]", s)
+        if m:
+            cands = [f for n_, f in self.mir.fns.items() if re.search(rf"(^|::){re.escape(m.group(1))}::promoted\[{m.group(2)}\]$", n_)]
+            if len(cands) == 1:
+                return self.run(cands[0], [])
+            raise Unsupported(f"promoted constant `{s}` not found in MIR")
+        m = re.fullmatch(r"(?:\w+::)*(?:constants|helpers|parsing)::(\w+)", s) or re.fullmatch(r"([A-Z][A-Z0-9_]+)", s)
         if m:
             if self._consts is None:
                 from . import rustconst
-                self._consts = rustconst.load()            # the literals of rust/src/constants.rs, folded from the source text
+                self._consts = rustconst.load_all()        # the literal constants of the crate, folded from the source text
             if m.group(1) in self._consts:
                 tolist = lambda v: [tolist(x) for x in v] if isinstance(v, (list, tuple)) else v      # noqa: E731
                 return tolist(self._consts[m.group(1)])
@@ -258,6 +267,8 @@ class Machine:
         if s.startswith("copy "):
             v = self.read(s[5:], L)
             return _copy.deepcopy(v) if isinstance(v, (Struct, Enum, list)) and not self._has_ref(v) else v
+        if not s.startswith(("_", "(")) and "::" in s:
+            return FnItem(s)              # a function of the crate / the standard library used as a value (`.map(i64::from)`)
         return self.read(s, L)
 
     def _has_ref(self, v, depth=0) -> bool:
@@ -382,6 +393,8 @@ class Machine:
         raise Unsupported(f"closure {key} not found in MIR")
 
     def call_closure(self, clo, args: list[Any]):
+        if isinstance(clo, FnItem):
+            return self.call(clo.path, args)
         if not isinstance(clo, Closure):
             raise Unsupported("call of a value that is not a closure of the crate")
         f = self.closure_fn(clo.key)
@@ -433,6 +446,31 @@ class Machine:
             return Enum("Some", [[off, Ch(ch)]])
         if re.search(r"impl str>::len$", c):
             return len(deref(a[0]).encode())
+        if re.search(r"RangeInclusive::<\w+>::new$", c):
+            return Struct("RangeInclusive", ["start", "end"], [a[0], a[1]])
+        if re.search(r"RangeInclusive::<\w+>::contains::<", c):
+            r = deref(a[0])
+            return self._num(r.vals[0]) <= self._num(deref(a[1])) <= self._num(r.vals[1])
+        if re.search(r"Range::<\w+>::contains::<", c):
+            r = deref(a[0])
+            return self._num(r.vals[0]) <= self._num(deref(a[1])) < self._num(r.vals[1])
+        m = re.search(r"<std::ops::Range(Inclusive)?<\w+> as Iterator>::(find|position|any|all)::<", c)
+        if m:
+            r = deref(a[0])
+            lo, hi = r.vals[0], r.vals[1] + (1 if m.group(1) else 0)
+            for i, x in enumerate(range(lo, hi)):
+                # find's predicate takes a reference to the item, any / all / position the item itself
+                hit = self.call_closure(a[1], [Ref([x], 0)] if m.group(2) == "find" else [x])
+                if m.group(2) == "find" and hit:
+                    r.vals[0] = x + 1
+                    return Enum("Some", [x])
+                if m.group(2) == "position" and hit:
+                    return Enum("Some", [i])
+                if m.group(2) == "any" and hit:
+                    return True
+                if m.group(2) == "all" and not hit:
+                    return False
+            return {"find": Enum("None"), "position": Enum("None"), "any": False, "all": True}[m.group(2)]
         if "Range<" in c and c.endswith("::into_iter"):
             return a[0]
         if "Range<" in c and c.endswith("::next"):
@@ -505,6 +543,8 @@ class Machine:
             if a[0].variant != "Some":
                 raise Panic("unwrap of None")
             return a[0].payload[0]
+        if re.search(r"array::<impl \[.*\]>::map::<", c):
+            return [self.call_closure(a[1], [x]) for x in a[0]]
         if re.search(r"impl bool>::then::<", c):
             return Enum("Some", [self.call_closure(a[1], [])]) if a[0] else Enum("None")
         raise Unsupported(f"call of `{callee[:70]}` (not modelled)")
